@@ -314,7 +314,7 @@ prop("C07", [_lazy("infer", "rule_opt"), _lazy("infer", "rule_eq1"), _lazy("emit
      "values); de-duplication by hash string over dict items in insertion order is an assumption")
 
 prop("C08", [_lazy("infer", "rule_nf"), _lazy("infer", "rule_nf6"), _lazy("infer", "rule_nf7"), _lazy("infer", "rule_eq1"),
-             _lazy("infer", "rule_widen1"), _lazy("infer", "rule_opt3"), _lazy("infer", "rule_val1"), _lazy("infer", "rule_nf8"), _lazy("infer", "rule_iface1"),
+             _lazy("infer", "rule_widen1"), _lazy("infer", "rule_opt3"), _lazy("infer", "rule_val1"), _lazy("infer", "rule_nf8"), _lazy("infer", "rule_iface1"), _lazy("infer", "rule_nf10"),
              _lazy("infer", "rule_memo1"),
              _lazy("infer", "rule_nf9")],
      "Static decision of: every DUnion construction in the inference code is followed by a size test on the "
